@@ -318,7 +318,7 @@ func rulesC20(c *Ctx) {
 		le := NewLockEngine(c.P)
 		fns := c.P.PkgFuncs("i18n/i18mem")
 		n4 := guardedAccessRule(c, le, "R4", fns, memT, "translates", "muTranlsates", nil)
-		c.Floor("R4", n4, 4)
+		c.Floor("R4", n4, 2)
 		st, fi := fieldIndex(memT, "translates")
 		_, gi := fieldIndex(memT, "muTranlsates")
 		for _, f := range fns {
